@@ -120,4 +120,41 @@ def corpus_for(chk=None):
     if res and chk:
         chk.add_tlc(res, "Malform.tla")
     muts = [x for x in out if "mut" in x]
+    muts += huge_length_mutants(t)
     return t, muts
+
+
+def huge_length_mutants(templates_):
+    """the position machine's long-form lengths, taken to the top of what 8 length octets can say: at every TLV node of a few templates
+    the length is rewritten to 2^64-1 .. 2^64-16, 2^63, 2^32 and 2^31 (8-octet form) - arithmetic on a declared length must not wrap"""
+    out = []
+    vals = [2 ** 64 - 1 - k for k in range(0, 16)] + [2 ** 63, 2 ** 63 - 1, 2 ** 32, 2 ** 31]
+    for t in templates_:
+        if t["name"] not in ("v2c-int", "v2c-two", "v1-int", "v3-plain", "v3-auth", "v2c-types"):
+            continue
+        b = bytes(t["b"])
+        # offsets of all TLV headers reachable by descending into constructed elements (and the msgSecurityParameters OCTET STRING)
+        nodes = []
+
+        def walk(p, end, depth):
+            while p < end and depth < 8:
+                try:
+                    tag, ln, hl = b[p], b[p + 1], 2
+                    if ln & 0x80:
+                        k = ln & 0x7F
+                        ln = int.from_bytes(b[p + 2:p + 2 + k], "big")
+                        hl = 2 + k
+                except IndexError:
+                    return
+                nodes.append((p, hl))
+                if tag & 0x20 or (tag == 0x04 and depth == 1 and t["ver"] == "v3"):
+                    walk(p + hl, min(end, p + hl + ln), depth + 1)
+                p += hl + ln
+        walk(0, len(b), 0)
+        for ni, (p, hl) in enumerate(nodes):
+            for vi, v in enumerate(vals):
+                if (ni + vi) % 3 and v < 2 ** 64 - 12:
+                    continue
+                nb = b[:p + 1] + bytes([0x88]) + v.to_bytes(8, "big") + b[p + hl:]
+                out.append(dict(t=t["name"], mut="hugelen=%d@%d" % (vi, p), why="toolong", b=list(nb)))
+    return out
